@@ -685,6 +685,31 @@ class MargIcdf(Contract):
         want = itp.lib.quantile_term(cx, n, lambda idx: sample.get((idx[0], dim)), self.p.get((k,)))
         cx.oblige("post.marginal_icdf_mc.quantile_of_column_dim", T.eq(r.get((k,)), want) if isinstance(r, SArr) else False, "post", "empirical quantile of the sampled column of variable `dim`")
 
+    def replay(self, case, ob):
+        """native: record the sample size asked of draw_sample (a small stand-in sample is returned) for probability
+        vectors in one tail, in the other, and spanning both"""
+        import numpy as np
+        co, dim = case["co"], case["dim"]
+        if co[dim] is None:
+            return {"confirmed": False, "detail": "unconditional variable: no sampling"}
+        m = native_model(co)
+        seen = []
+        real_draw = m.draw_sample
+        stand_in = real_draw(2000, random_state=1)
+
+        def spy(n, *a, **k):
+            seen.append(int(n))
+            return stand_in
+        m.draw_sample = spy
+        bad = []
+        for p, pf in (([0.5, 0.99999], 1.0), ([1e-6, 0.3], 1.0), ([0.001, 0.5, 0.99999], 1.0), ([2e-5, 0.9999], 0.5), ([0.3, 0.6], 1.0)):
+            seen.clear()
+            m.marginal_icdf(np.array(p), dim, precision_factor=pf)
+            want = max(int(100 * pf / min(min(p), 1 - max(p))), 100000)
+            if len(seen) != 1 or abs(seen[0] - want) > 1:
+                bad.append((p, pf, list(seen), want))
+        return {"confirmed": bool(bad), "detail": f"(p, precision_factor, sample sizes drawn, documented size): {bad}" if bad else "sample sizes as documented"}
+
 
 @contract(GHM + ".draw_sample", ["C07", "C16"], [dict(rs=r) for r in ("seed", "generator")], name="ghm.draw_sample.any_n_dim")
 class GhmDrawSym(Contract):
